@@ -493,6 +493,10 @@ partial def loop (h : IO.FS.Stream) (s : DS) : IO Unit := do
     match field rest "ck" with
     | some ck => plain "H" (.setHeader (payload ck) (payload v))
     | none => IO.println "bad-op"; loop h s
+  | "M" :: _ :: v :: rest =>   -- w.Header()[k] = []string{v}: `ck` is the key as written
+    match field rest "ck" with
+    | some ck => plain "M" (.setHeader (payload ck) (payload v))
+    | none => IO.println "bad-op"; loop h s
   | "A" :: _ :: v :: rest =>
     match field rest "ck" with
     | some ck => plain "A" (.addHeader (payload ck) (payload v))
